@@ -33,19 +33,41 @@ def run(ctx: Ctx) -> Collector:
 
 
 # --------------------------------------------------------------------------- merge helpers
+def _dict_loop(it: Term):
+    """(table, key, substitution value-var -> table[key]) of an iteration over a dict."""
+    d = items_iter(it)
+    if d is None or d[1] is None:
+        return None
+    table, k, v, form = d
+    sub = {v: ("idx", table, k)} if v is not None and v != ("idx", table, k) else {}
+    return table, k, sub
+
+
+def _present(t: Term, table: Term, k: Term) -> Term:
+    """Under the assumption `k in table`: table.get(k, *) is table[k]."""
+    m = {}
+    for x in T.subterms((t,)):
+        if x[0] == "call" and x[1] == ("attr", table, "get") and x[2] and x[2][0] == k:
+            m[x] = ("idx", table, k)
+    return T.replace(t, m) if m else t
+
+
 def _helpers(ctx: Ctx, c: Collector) -> None:
-    # merge_all: for k, v in other.items(): target[k] = merger(target[k], v) if k in target else v
+    """merge_all / merge_existing by cases on key membership (iteration over .items(), over the dict or
+    its keys, `in` tests and the get-with-sentinel idiom are the same thing)."""
+    from .. import boolfn
+    # merge_all: every key of `other`: target[k] = merger(target[k], other[k]) if k in target else other[k]
     fi = ctx.func(MERGE_ALL)
     s = ctx.summ(MERGE_ALL)
     merger, target, other = (T.var(p) for p in fi.params[:3])
     st = s.of_kind("store")
     pr = []
-    from .. import boolfn
-    ok_iter = bool(st) and all(len(e.iters) == 1 and items_iter(e.iters[0]) is not None and items_iter(e.iters[0])[0] == other and e.term[1][0] == "idx" and e.term[1][1] == target for e in st)
+    loops = [_dict_loop(e.iters[0]) if len(e.iters) == 1 else None for e in st]
+    ok_iter = bool(st) and all(l is not None and l[0] == other for l in loops) and all(e.term[1][0] == "idx" and e.term[1][1] == target for e in st)
     if not ok_iter:
         pr.append("does not visit every entry of `other` storing into `target`")
     else:
-        k, v = items_iter(st[0].iters[0])[1], items_iter(st[0].iters[0])[2]
+        _, k, sub = loops[0]
         IN = ("cmp", "in", k, target)
         try:
             for present in (True, False):
@@ -53,29 +75,52 @@ def _helpers(ctx: Ctx, c: Collector) -> None:
                 if len(fired) != 1 or fired[0].term[1] != ("idx", target, k):
                     pr.append(f"a key {'present on both sides' if present else 'only present in `other`'} is stored {len(fired)} times / under another key")
                     continue
-                val = boolfn.resolve_phi(fired[0].term[2], {IN: present})
-                if present and val != call(merger, ("idx", target, k), v):
+                val = T.replace(unalias(boolfn.resolve_phi(fired[0].term[2], {IN: present}), s, fi), sub)
+                if present:
+                    val = _present(val, target, k)
+                if present and val != call(merger, ("idx", target, k), ("idx", other, k)):
                     pr.append("a key present on both sides is not combined as merger(target[k], other[k])")
-                if not present and val != v:
+                if not present and val != ("idx", other, k):
                     pr.append("a key only present in `other` is not added to `target`")
         except boolfn.NotBoolean as ex:
             pr.append(f"condition not understood: {ex}")
     if not s.returns or s.returns[-1].term != target:
         pr.append("does not return `target`")
     c.add("helper", MERGE_ALL, "adds missing keys, merges common ones (existing first)", VIOLATED if pr else DISCHARGED, "; ".join(pr), fi.loc)
-    # merge_existing: for k, v in target.items(): if k in other: target[k] = merger(v, other[k])
+    # merge_existing: every key of `target` that `other` has too: target[k] = merger(target[k], other[k])
     fi = ctx.func(MERGE_EX)
     s = ctx.summ(MERGE_EX)
     merger, target, other = (T.var(p) for p in fi.params[:3])
     st = s.of_kind("store")
     pr = []
-    if len(st) != 1 or len(st[0].iters) != 1 or items_iter(st[0].iters[0]) is None or items_iter(st[0].iters[0])[0] != target:
-        pr.append("does not iterate the keys of `target` only (a key of `other` could be added)")
+    loop = _dict_loop(st[0].iters[0]) if len(st) == 1 and len(st[0].iters) == 1 else None
+    if loop is None or loop[0] != target:
+        # iterating `other` and testing `k in target` visits the same keys
+        if loop is not None and loop[0] == other:
+            _, k, sub = loop
+            IN_T = ("cmp", "in", k, target)
+            try:
+                if boolfn.guards_hold_leaves(st[0].guards, {IN_T: False}):
+                    pr.append("a key that only `other` has is added to `target`")
+                val = _present(T.replace(unalias(st[0].term[2], s, fi), sub), target, k)
+                if st[0].term[1] != ("idx", target, k) or val != call(merger, ("idx", target, k), ("idx", other, k)):
+                    pr.append("existing keys are not combined as merger(target[k], other[k])")
+            except boolfn.NotBoolean as ex:
+                pr.append(f"condition not understood: {ex}")
+        else:
+            pr.append("does not iterate the keys of `target` only (a key of `other` could be added)")
     else:
-        k, v = items_iter(st[0].iters[0])[1], items_iter(st[0].iters[0])[2]
-        if guard_terms(st[0].guards) != [("cmp", "in", k, other)]:
-            pr.append("an existing key is overwritten although `other` has no value for it")
-        if st[0].term != ("store", ("idx", target, k), call(merger, v, ("idx", other, k))):
+        _, k, sub = loop
+        IN_O = ("cmp", "in", k, other)
+        try:
+            if boolfn.guards_hold_leaves(st[0].guards, {IN_O: False}):
+                pr.append("an existing key is overwritten although `other` has no value for it")
+            if not boolfn.guards_hold_leaves(st[0].guards, {IN_O: True}):
+                pr.append("a key present on both sides is not merged")
+        except boolfn.NotBoolean as ex:
+            pr.append(f"condition not understood: {ex}")
+        val = _present(T.replace(unalias(st[0].term[2], s, fi), sub), other, k)
+        if st[0].term[1] != ("idx", target, k) or val != call(merger, ("idx", target, k), ("idx", other, k)):
             pr.append("existing keys are not combined as merger(target[k], other[k])")
     if not s.returns or s.returns[-1].term != target:
         pr.append("does not return `target`")
@@ -166,11 +211,16 @@ def _get_input_data(ctx: Ctx, c: Collector) -> None:
     inp = takes[0].term[1] if takes and takes[0].kind == "bind" else T.var("input_data")
     # a single-definition local is substituted by its value downstream: both spellings denote the step inputs
     aliases = {T.strip(takes[0].term[2]): inp} if takes and takes[0].kind == "bind" and T.strip(takes[0].term[2])[0] not in ("var", "attr") else {}
+    # re-bindings of the same name (`input_data = buffer.get_input(input_data, t)` returns its argument)
+    for b in s.of_kind("bind"):
+        if b.term[1] == inp and T.strip(b.term[2])[0] == "call" and T.contains((b.term[2],), inp):
+            aliases[T.replace(T.strip(b.term[2]), aliases)] = inp
+            aliases[T.strip(b.term[2])] = inp
 
     def canon(t):
         return T.replace(T.strip(t), aliases) if aliases else t
     # who else touches the field
-    for f2 in ctx.prog.all_functions():
+    for f2 in analysis_units(ctx.prog):
         if f2.qualname in (GID, "mosaik.simmanager.SimRunner.__init__", "mosaik.simmanager.MosaikRemote.set_data"):
             continue
         for e in summarise(ctx.prog, f2).events:
@@ -428,38 +478,120 @@ def _get_outputs(ctx: Ctx, c: Collector) -> None:
 
 
 # --------------------------------------------------------------------------- R16 floor
+def _floor_reader(ctx: Ctx, fi: FuncInfo, s: Summary) -> Tuple[List[str], Optional[str]]:
+    """(problems, unknown-reason) for get_output_for: it returns the data of the *greatest* key <= time
+    (whatever the insertion order of the cache), and {} if there is none."""
+    from .. import boolfn, constfold
+    me, t = T.var(fi.params[0]), T.var(fi.params[1])
+    outs = ("attr", me, "outputs")
+    key_sources = (outs, call(("attr", outs, "keys")))
+    pr: List[str] = []
+    rv = folded_return(s)
+    if rv is None:
+        return ["nothing is returned"], None
+    rv = unalias(T.strip(rv), s, fi)
+    # form 1: a first-match scan
+    hit = [r for r in s.returns if r.iters]
+    nxt = [x for x in T.subterms((rv,)) if x[0] == "call" and x[1] == T.glob("next") and x[2] and T.strip(x[2][0])[0] == "bag"]
+    scan = None          # (iteration source, key var, value term, guards, default)
+    if hit:
+        r = hit[0]
+        pat = r.iters[0][1]
+        tail = [x for x in s.returns if not x.iters]
+        if pat[0] == "tuple" and len(pat[1]) == 2:
+            scan = (T.strip(r.iters[0][2]), pat[1][0], r.term, guard_terms(r.guards[-1:]), pat[1][1], tail[-1].term if tail else None)
+    elif nxt:
+        b = T.strip(nxt[0][2][0])
+        if len(b[1]) == 1 and len(b[1][0][3]) == 1 and b[1][0][3][0][1][0] == "tuple" and len(b[1][0][3][0][1][1]) == 2:
+            el = b[1][0]
+            scan = (T.strip(el[3][0][2]), el[3][0][1][1][0], el[1], guard_terms(el[2]), el[3][0][1][1][1], nxt[0][2][1] if len(nxt[0][2]) > 1 else None)
+    if scan is not None:
+        src, kv, val, guards, vv, default = scan
+        items = call(("attr", outs, "items"))
+        by_time = [call(T.glob("sorted"), items, reverse=T.const(True))]
+        if src == call(T.glob("reversed"), items):
+            pr.append("the newest entry is taken to be the one inserted last (reversed(outputs.items())), but the cache is not filled in time order "
+                      "(initial data of several time-shifted connections is filed under -shift in connection order, a simulator may set output times that are not monotone): "
+                      "an older or a newer entry than the floor is returned")
+        elif src == items:
+            pr.append("iterates oldest first: returns the oldest entry <= time instead of the newest")
+        elif src not in by_time:
+            return pr, f"iteration {T.show(src)[:60]} not recognised"
+        if guards != [("cmp", "<=", kv, t)]:
+            if guards == [("cmp", "<", kv, t)]:
+                pr.append("an entry produced exactly at the queried time is skipped (< instead of <=)")
+            else:
+                pr.append(f"entry test is {[T.show(x) for x in guards]} instead of key <= time")
+        if val != vv:
+            pr.append("does not return the entry's data")
+        if default != ("dict", ()):
+            pr.append("does not return {} when nothing is old enough")
+        return pr, None
+    # form 2: floor key by max() over the keys that are old enough
+    aggs = [x for x in T.subterms((rv,)) if x[0] == "agg" and x[1] in ("max", "min")]
+    if not aggs:
+        return ["no entry is ever returned"], None
+    M = aggs[0]
+    els = M[2][1]
+    if len(els) != 1 or len(els[0][3]) != 1:
+        return pr, f"key search {T.show(M)[:60]} not recognised"
+    el = els[0]
+    it = el[3][0]
+    src = T.strip(it[2])
+    kv = it[1]
+    if src == call(("attr", outs, "items")) and kv[0] == "tuple":
+        kv = kv[1][0]
+    elif src not in key_sources:
+        return pr, f"key search iterates {T.show(src)[:60]}, not the cache keys"
+    if el[1] != kv:
+        pr.append(f"the search ranges over {T.show(el[1])[:40]}, not over the cache times")
+    if M[1] == "min":
+        pr.append("takes the oldest entry <= time (min) instead of the newest")
+    g = guard_terms(el[2])
+    if g != [("cmp", "<=", kv, t)]:
+        if g == [("cmp", "<", kv, t)]:
+            pr.append("an entry produced exactly at the queried time is skipped (< instead of <=)")
+        elif not g:
+            pr.append("entries newer than the queried time are not excluded: output that is not yet due is delivered")
+        else:
+            pr.append(f"entry test is {[T.show(x) for x in g]} instead of key <= time")
+    default = dict(M[3]).get("default")
+    if default is None:
+        pr.append("max() without default: ValueError when no entry is old enough instead of {}")
+        return pr, None
+    FK = T.var("§floor-key")
+    try:
+        # no entry old enough: the search yields its default
+        none_case = T.strip(boolfn.resolve_phi(T.replace(rv, {M: default}), {}, lambda x: constfold.decide(x, {})))
+        if none_case != ("dict", ()) and not (none_case[0] == "call" and none_case[1] == T.glob("dict") and not none_case[2]):
+            pr.append(f"returns {T.show(none_case)[:50]} instead of {{}} when nothing is old enough")
+        # some entry: the search yields the floor key (not None)
+        def truthy(x):
+            x = T.strip(x)
+            if x[0] == "cmp" and x[1] in ("is", "isnot") and FK in (x[2], x[3]) and T.NONE in (x[2], x[3]):
+                return x[1] == "isnot"
+            if x[0] == "cmp" and x[1] in ("==", "!=") and FK in (x[2], x[3]) and T.NONE in (x[2], x[3]):
+                return x[1] == "!="
+            return None
+        some_case = T.strip(boolfn.resolve_phi(T.replace(rv, {M: FK}), {}, truthy))
+        if some_case not in (("idx", outs, FK), call(("attr", outs, "get"), FK), call(("attr", outs, "get"), FK, ("dict", ()))):
+            pr.append(f"returns {T.show(some_case).replace('§floor-key', '<floor key>')[:60]} instead of the data stored under the floor key")
+    except boolfn.NotBoolean as ex:
+        return pr, f"condition not understood: {ex}"
+    return pr, None
+
+
 def _floor(ctx: Ctx, c: Collector) -> None:
     # reader semantics
     fi = ctx.func(GOF)
     s = ctx.summ(GOF)
-    me, t = T.var(fi.params[0]), T.var(fi.params[1])
-    outs = ("attr", me, "outputs")
-    pr = []
-    hit = [r for r in s.returns if r.iters]
-    if not hit:
-        pr.append("no entry is ever returned")
+    pr, unk = _floor_reader(ctx, fi, s)
+    if pr:
+        c.bad("R16", GOF, "floor lookup: newest entry with key <= time", "; ".join(pr), fi.loc)
+    elif unk:
+        c.unk("R16", GOF, "floor lookup: newest entry with key <= time", unk, fi.loc)
     else:
-        r = hit[0]
-        src = T.strip(r.iters[0][2])
-        rev = src == call(T.glob("reversed"), call(("attr", outs, "items")))
-        if not rev:
-            if src == call(("attr", outs, "items")):
-                pr.append("iterates oldest first: returns the oldest entry <= time instead of the newest")
-            else:
-                pr.append(f"iteration {T.show(src)[:60]} not recognised")
-        else:
-            kv, vv = r.iters[0][1][1]
-            if guard_terms(r.guards[-1:]) != [("cmp", "<=", kv, t)]:
-                if guard_terms(r.guards[-1:]) == [("cmp", "<", kv, t)]:
-                    pr.append("an entry produced exactly at the queried time is skipped (< instead of <=)")
-                else:
-                    pr.append(f"entry test is {[T.show(x) for x in guard_terms(r.guards[-1:])]} instead of key <= time")
-            if r.term != vv:
-                pr.append("does not return the entry's data")
-    tail = [r for r in s.returns if not r.iters]
-    if not tail or tail[-1].term != ("dict", ()):
-        pr.append("does not return {} when nothing is old enough")
-    c.add("R16", GOF, "floor lookup: newest entry with key <= time", VIOLATED if pr else DISCHARGED, "; ".join(pr), fi.loc)
+        c.ok("R16", GOF, "floor lookup: newest entry with key <= time", "greatest key <= time, independent of the insertion order; {} if none", fi.loc)
     # pruner
     fi = ctx.func(PRUNE)
     s = ctx.summ(PRUNE)
